@@ -52,8 +52,15 @@ func genC20(t *rapid.T) c20Case {
 		c.Mode = "stack"
 		st := &c20Stack{}
 		st.Shape = gen.DrawShape(t, gen.ShapeOpts{Formats: []string{"xml", "json", "edi"}, PlainOnly: true, NoIntCol: true, NoFilter: true})
+		if st.Shape.Format == "json" && rapid.Bool().Draw(t, "numericLeaf") {
+			// c0 is a JSON number (not a string): a leaf whose _node is a bare number
+			st.Shape.IntCol = 0
+		}
 		st.Recs = gen.DrawRecs(t, st.Shape, "r", 1, 6, gen.ValueOpts{})
 		st.Fields = gen.DrawJSFields(t, "f")
+		if st.Shape.IntCol == 0 && len(st.Fields) > 0 {
+			st.Fields[0].Ctx, st.Fields[0].XPath = true, "c0"
+		}
 		c.Stack = st
 	case k < 6:
 		c.Mode = "conc"
@@ -565,6 +572,14 @@ func c20CheckStack(c c20Case) obs.Result {
 		return obs.Violationf("NewTransform: %v", err)
 	}
 	classes := []string{"mode=stack", "format=" + st.Shape.Format}
+	if st.Shape.Format == "json" && st.Shape.IntCol == 0 {
+		for _, f := range st.Fields {
+			if f.Ctx && f.XPath == "c0" {
+				classes = append(classes, "stack:_node-of-a-number-leaf")
+				break
+			}
+		}
+	}
 	history := map[int64][]string{} // node ID -> its JSON at each earlier record where a _node call used it
 	lastJSON := map[int64]string{}
 	setEarlier := map[string]bool{}
